@@ -26,7 +26,7 @@ KEYWORD_NAMES = ["Ref", "Type", "Class", "Default", "Match", "Use", "Move", "Loo
                  "In", "Is", "Not", "Pass", "Def", "Try", "Int", "Long", "Short", "Float", "Double", "Void", "Auto", "Const", "Switch",
                  "Case", "Do", "Return", "This", "Throw", "Union", "Using", "While", "Fn", "Let", "Mut", "Pub", "Impl", "Where", "As",
                  "Lambda", "Import", "From", "Global", "With", "Yield", "Package", "Interface"]
-ODD_NAMES = ["msg_type", "a1b", "_x", "HTTPServer2", "clOrdId", "x", "ID", "my_Field"]
+ODD_NAMES = ["msg_type", "a1b", "_x", "HTTPServer2", "clOrdId", "x", "ID", "my_Field", "zcharLegacy", "stringy", "repeatCount", "rootCause"]
 
 
 class Cfg:
@@ -124,7 +124,7 @@ def gen_simple_field(rng, cfg, name, metas, allow_repeat=True, in_inline=False):
         pad = None
         if cfg.allow_pad_attr and not z and not in_inline and rng.random() < 0.4:
             pad = (rng.choice(["left", "right"]), rng.choice(PADCHARS))
-        return {"kind": "fixed", "name": name, "n": n, "z": z, "pad": pad, "repeat": rep, "doc": doc}
+        return {"kind": "fixed", "name": name, "n": n, "z": z, "pad": pad, "repeat": rep, "doc": doc, "lz": rng.random() < 0.12}
     if k == "dyn":
         return {"kind": "dyn", "name": name, "spelling": rng.choice(["string", "char[]"]), "repeat": rep, "doc": doc}
     m = rng.choice(metas)
@@ -208,9 +208,9 @@ def gen_program(rng, cfg=None):
                         # key lists around the formatter's wrap width (5 per line) and its multiples
                         ks = list(range(kv, kv + rng.choice([2, 3, 3, 5, 6, 7, 10, 11, 15])))
                         kv += len(ks)
-                        pairs.append({"keys": [_key(ktype, x) for x in ks], "list": True, "target": t})
+                        pairs.append({"keys": [_key(ktype, x, rng) for x in ks], "list": True, "target": t})
                     else:
-                        pairs.append({"keys": [_key(ktype, kv)], "list": False, "target": t})
+                        pairs.append({"keys": [_key(ktype, kv, rng)], "list": False, "target": t})
                         kv += 1
                 if cfg.wide_keys and ktype in INTS and rng.random() < 0.15:
                     # the largest value of the key's type (for u32 / 64-bit keys beyond a Java int literal)
@@ -273,6 +273,8 @@ def gen_program(rng, cfg=None):
                     f["named"] = True    # a length field names its target
                 if cfg.allow_tag and rng.random() < 0.1:
                     f["tag"] = rng.randint(1, 999)
+                    if rng.random() < 0.2:
+                        f["tag"] = "0%d" % f["tag"]
                 if fields and fields[-1].get("any_target"):
                     fields[-1]["_tobj"] = f
                 fields.append(f)
@@ -293,7 +295,7 @@ def gen_program(rng, cfg=None):
             for f in fields:
                 if f["kind"] in ("length", "checksum") and ints and rng.random() < 0.3:
                     m = rng.choice(ints)
-                    if m["name"] in used:
+                    if m["name"] in used or (f["kind"] == "length" and m["type"] == "i8"):     # see _len_type
                         continue
                     old_name = f["name"]
                     f["name"], f["type"], f["typeless"] = m["name"], m["type"], True
@@ -334,10 +336,11 @@ def _dedupe(fields):
         seen.add(nm)
 
 
-def _key(ktype, v):
+def _key(ktype, v, rng=None):
     if ktype == "string":
         return '"K%d"' % v
-    return str(v)
+    # one key in twelve is written with leading zeros: numbers are decimal however they are padded
+    return ("0%d" % v if v % 10 < 8 else "00%d" % v) if (rng is not None and rng.random() < 0.08) else str(v)
 
 
 _inline_counter = [0]
@@ -359,7 +362,7 @@ def gen_inline(rng, cfg, name, depth, later=(), metas=()):
         elif rich and cfg.allow_match and later and r < 0.45:
             ktype = rng.choice(INTS[:6] + (["string"] if cfg.string_keys else []))
             targets = rng.sample(list(later), rng.randint(1, min(2, len(later))))
-            pairs = [{"keys": [_key(ktype, i + 1)], "list": False, "target": t} for i, t in enumerate(targets)]
+            pairs = [{"keys": [_key(ktype, i + 1, rng)], "list": False, "target": t} for i, t in enumerate(targets)]
             if ktype == "string":
                 fields.append({"kind": "dyn", "name": nm + "Key", "spelling": "string", "repeat": False, "doc": None})
             else:
@@ -405,7 +408,8 @@ def type_text(f):
     if f["kind"] == "scalar":
         return ALIAS[f["type"]] if f.get("alias") else f["type"]
     if f["kind"] == "fixed":
-        return ("zchar[%d]" if f["z"] else "char[%d]") % f["n"]
+        # a length may be written with leading zeros: DIGITS is [0-9]+ and the number is decimal
+        return ("zchar[%s]" if f["z"] else "char[%s]") % (("0%d" % f["n"]) if f.get("lz") else f["n"])
     if f["kind"] == "dyn":
         return f["spelling"]
     raise ValueError(f)
@@ -416,7 +420,7 @@ def render_field(f, L, ind, with_attrs=True):
     nl = L.nl(ind)
     if with_attrs:
         if f.get("tag") is not None:
-            s += "@tag(%d)" % f["tag"] + nl
+            s += "@tag(%s)" % f["tag"] + nl
         if f["kind"] in ("fixed", "metaref") and f.get("pad"):
             s += "@%sPad(%s)" % f["pad"] + nl
         if f["kind"] == "length" and f["prefixed"]:
